@@ -83,6 +83,12 @@ func (s *Sess) uf(name string, argSorts []string, ret string) string {
 	if !s.ufDecl[n] {
 		s.ufDecl[n] = true
 		s.emitDecl(fmt.Sprintf("(declare-fun %s (%s) %s)", n, strings.Join(argSorts, " "), ret))
+		if name == "str.ofbytes" {
+			// a string has as many bytes as the slice it was converted from
+			s.global(func() {
+				s.assume(fmt.Sprintf("(forall ((a (Array Int Int)) (o Int) (n Int)) (! (=> (>= n 0) (= (str.len (%s a o n)) n)) :pattern ((%s a o n))))", n, n))
+			})
+		}
 	}
 	return n
 }
@@ -464,6 +470,37 @@ func (s *Sess) exec(in ssa.Instruction, st *State) {
 			s.havocVal(x, st)
 		}
 	case *ssa.MakeClosure:
+		// the closure body assumes the type invariant of what it captures: it must hold here
+		if cf, ok := x.Fn.(*ssa.Function); ok {
+			for i, b := range x.Bindings {
+				if i >= len(cf.FreeVars) {
+					break
+				}
+				pt, ok := cf.FreeVars[i].Type().(*types.Pointer)
+				if !ok {
+					continue
+				}
+				invs := s.eng.typeInvsFor(pt.Elem())
+				if len(invs) == 0 {
+					continue
+				}
+				capName := "$cap." + cf.FreeVars[i].Name()
+				cur := Val{t: s.load(st, s.val(b), pt.Elem()), typ: pt.Elem()}
+				for k, ti := range invs {
+					if ti.C.E == nil {
+						continue
+					}
+					ce := s.funcEnv(st, s.entry, nil)
+					ce.vars[capName] = cur
+					f, err := ce.evalBool(renameIdent(ti.C.E, "$recv", capName))
+					if err != nil {
+						s.detached("closure capture %s: type invariant %q: %v", cf.FreeVars[i].Name(), ti.C.Src, err)
+						continue
+					}
+					s.oblige(st, "pre", fmt.Sprintf("closure.%s.typeinv%d@%d", cf.FreeVars[i].Name(), k, s.ord[in]), f, x.Pos(), "type invariant of captured "+cf.FreeVars[i].Name()+": "+ti.C.Src)
+				}
+			}
+		}
 		r := s.setVal(x, st.top, st)
 		st.top = s.define("top", "Int", fmt.Sprintf("(+ %s 1)", st.top))
 		r.clo = x
